@@ -157,6 +157,7 @@ def order_property(prop: str, lvl: str, repo: str, tier: str) -> CheckResult:
     add_findings(res, results, {'SWAP-EXCHANGE'}, want, as_rule=lambda f: 'CONSERVE')
     add_findings(res, results, {'LIVE-ITER'}, want, as_rule=lambda f: 'IDX')
     add_findings(res, results, {'DELETE-REMOVES'}, want, as_rule=lambda f: 'CONSERVE')
+    add_findings(res, results, {'MOVE-ACTS'}, want, as_rule=lambda f: 'CONSERVE')
     if lvl == 'item':
         add_sites(res, {c: r for c, r in results.items() if want_c(c)}, 'item-lookup', 'STORY-SCOPED')
         add_findings(res, results, {'STORY-SCOPED'}, want)
@@ -295,6 +296,8 @@ def prop_C06(repo, tier):
         res.add('NO-EARLY-EXIT', f'{cname}.merge', 'loops over named elements', True)
     add_findings(res, results, {'MISS-REPORTED', 'WARN-CATEGORY', 'SILENT-SUCCESS', 'NO-EARLY-EXIT'})
     add_findings(res, results, {'LIVE-ITER'}, as_rule=lambda f: 'NO-EARLY-EXIT')
+    # "every ID listed is acted upon": a move that found its target and sources must not return without editing, a delete must remove what it found
+    add_findings(res, results, {'MOVE-ACTS', 'DELETE-REMOVES'}, as_rule=lambda f: 'NO-EARLY-EXIT')
     stale_cache(res, repo, merges=True)
     res.floors = {'MISS-REPORTED': 22, 'WARN-CATEGORY': 5}
     res.explanation = (
